@@ -222,14 +222,14 @@ func init() {
 	rt.Register(&rt.Prop{
 		ID: "C14", Level: "exploration",
 		Technique: "runtime monitoring at quiescent points: read-only walk of every level through verif accessors (order, sub-sequence, height/linkage, acyclicity by step bound) and reconciliation with GetStats/DumpStats/MemoryInUse and the allocator's live set",
-		Rule: "cases 0-9: the insert/delete micro-scenarios under the serialized controller, walked and reconciled after every schedule. Then rotating: bare skiplist hammered by 2-16 goroutines (random and forced levels up to 8, writer-local statistics merged as nitro does, three memory modes) and walked after each of 6 phases; instances produced by LoadFromDisk incl. delta inserts; builder output (after Assemble and after further operations); nitro contention engine and ownership engine with a checkpoint after every phase. " +
+		Rule: "cases 0-11: the insert/delete micro-scenarios under the serialized controller, walked and reconciled after every schedule. Then rotating: bare skiplist hammered by 2-16 goroutines (random and forced levels up to 8, writer-local statistics merged as nitro does, three memory modes) and walked after each of 6 phases; instances produced by LoadFromDisk incl. delta inserts; builder output (after Assemble and after further operations); nitro contention engine and ownership engine with a checkpoint after every phase. " +
 			"evaluations = quiescent points reconciled (or schedules); distinct = configuration tuples incl. maximum level seen",
 		Assumptions: []string{"quiescence: all harness goroutines joined and (nitro level) collection/free workers parked with empty queues", "marked nodes are excluded from the chain checks, as the property states"},
 		Cases: func(t string) int {
 			if t == "thorough" {
-				return 10 + 1500
+				return len(slMicros) + 1500
 			}
-			return 10 + 80
+			return len(slMicros) + 80
 		},
 		Batch:         func(t string) int { return 6 },
 		Procs:         16,
